@@ -9,7 +9,7 @@
      region order, for every paragraph of the body, in document order, the Br/Text leaves whose whole chain of
      ancestors is active at s_i, selected for the region and not display:none (C01's `chain_visible`), in document
      order; a Br is a line break, the end of a paragraph and the end of a region are line breaks, a character of
-     text is itself, except that XML white space is a space (a line feed or carriage return inside xml:space="preserve"
+     text is itself, except that white space (XML's and Unicode's) is a space (a line feed or carriage return inside xml:space="preserve"
      content is a line break: both terminate a line in SubRip and WebVTT files; an XML parser never delivers a carriage
      return, it can only come from a character reference or the API).  Text below rt/rp (ruby annotation and its delimiters) may or may not be part of the payload:
      `annot` selects the reading, and a payload is accepted if it agrees with either.
@@ -35,9 +35,17 @@ Fixpoint toks_eqb (a b : list tok) : bool :=
   | _, _ => false
   end.
 
-(* characters: XML white space (is_space of IsdSpec: TAB LF CR SPACE) *)
+(* white space beyond XML's four characters: Unicode White_Space, plus the C0 information separators U+001C..U+001F (which XML 1.0
+   does not admit in documents at all); such characters show nothing *)
+Definition blank_points : list Z :=
+  [9; 10; 11; 12; 13; 28; 29; 30; 31; 32; 133; 160; 5760; 8192; 8193; 8194; 8195; 8196; 8197; 8198; 8199; 8200; 8201; 8202;
+   8232; 8233; 8239; 8287; 12288].
+Definition blank_char (c : Z) : bool := existsb (Z.eqb c) blank_points.
+
+(* characters: XML white space (is_space of IsdSpec: TAB LF CR SPACE) and the other blank characters are spaces *)
 Definition char_tok (preserve : bool) (c : Z) : tok :=
-  if is_space c then (if preserve && ((c =? 10) || (c =? 13)) then TLb else TSp) else TChr c.
+  if is_space c then (if preserve && ((c =? 10) || (c =? 13)) then TLb else TSp)
+  else if blank_char c then TSp else TChr c.
 (* the leaf at the end of a chain; its parent's xml:space governs its white space *)
 Definition chain_toks (c : list attrs) : list tok :=
   match rev c with
@@ -96,12 +104,7 @@ Fixpoint canon_go (pending : option tok) (started : bool) (l : list tok) : list 
   end.
 Definition canon (l : list tok) : list tok := canon_go None false l.
 
-(* blank: nothing but white space — Unicode White_Space, plus the C0 information separators U+001C..U+001F (which XML 1.0
-   does not admit in documents at all) *)
-Definition blank_points : list Z :=
-  [9; 10; 11; 12; 13; 28; 29; 30; 31; 32; 133; 160; 5760; 8192; 8193; 8194; 8195; 8196; 8197; 8198; 8199; 8200; 8201; 8202;
-   8232; 8233; 8239; 8287; 12288].
-Definition blank_char (c : Z) : bool := existsb (Z.eqb c) blank_points.
+(* blank: nothing but white space *)
 Definition blank (l : list tok) : bool := forallb (fun t => match t with TChr c => blank_char c | _ => true end) l.
 
 (* nearest millisecond (a tie goes to the even one, as IEEE 754 and Python's round do; the property does not say) *)
